@@ -268,7 +268,7 @@ def _run_one(args):
         if _worker is not None:
             _worker.kill()
             _worker = None
-        return {"machinery": "WorkerDied outside a case: %s" % e.how}
+        return {"machinery": "WorkerDied outside a case: %s rc=%s shard=%r" % (e.how, e.rc, shard)}
     except Exception as e:  # a bug in the machinery
         import traceback
         return {"machinery": "exception in shard %r: %s" % (shard, traceback.format_exc())}
